@@ -4,6 +4,7 @@ import (
 	_ "embed"
 	"encoding/json"
 	"fmt"
+	"go/token"
 	"go/types"
 	"sort"
 	"strings"
@@ -89,6 +90,214 @@ func (m *Module) currentNames() nameTable {
 	return out
 }
 
+// fieldCanon maps a struct field that was renamed (relative to names.json) to its reference name, so
+// that access paths and field-keyed rules keep speaking the reference vocabulary. Only unambiguous
+// renames are mapped: the struct lost exactly one field of that type and gained exactly one.
+var fieldCanon = map[*types.Var]string{}
+
+// fname is the (reference) name of a struct field.
+func fname(v *types.Var) string {
+	if n, ok := fieldCanon[v]; ok {
+		return n
+	}
+	return v.Name()
+}
+
+func fieldTypeString(pkg *types.Package, v *types.Var) string {
+	return types.TypeString(v.Type(), func(p *types.Package) string {
+		if p == pkg {
+			return ""
+		}
+		return p.Path()
+	})
+}
+
+// currentFields lists the fields of the struct types declared in the module's packages.
+func (m *Module) currentFields() map[string]map[string]map[string]string {
+	out := map[string]map[string]map[string]string{}
+	for path, p := range m.SSA {
+		if p == nil || !strings.HasPrefix(path, modPath) {
+			continue
+		}
+		for _, mem := range p.Members {
+			t, ok := mem.(*ssa.Type)
+			if !ok {
+				continue
+			}
+			st, ok := t.Type().Underlying().(*types.Struct)
+			if !ok {
+				continue
+			}
+			fs := map[string]string{}
+			for i := 0; i < st.NumFields(); i++ {
+				fs[st.Field(i).Name()] = fieldTypeString(p.Pkg, st.Field(i))
+			}
+			if out[path] == nil {
+				out[path] = map[string]map[string]string{}
+			}
+			out[path][t.Name()+"#fields"] = fs
+		}
+	}
+	return out
+}
+
+// typeCanon maps a renamed (unexported) type to its reference name: the package lost exactly one type
+// with that set of fields (or, for non-struct types, methods) and gained exactly one.
+var typeCanon = map[*types.TypeName]string{}
+
+// tname is the (reference) name of a named type.
+func tname(o *types.TypeName) string {
+	if n, ok := typeCanon[o]; ok {
+		return n
+	}
+	return o.Name()
+}
+
+func sameKeys(a, b map[string]string) bool {
+	if len(a) != len(b) || len(a) == 0 {
+		return false
+	}
+	for k := range a {
+		if _, ok := b[k]; !ok {
+			return false
+		}
+	}
+	return true
+}
+
+func (m *Module) canonTypes() {
+	ref := loadNames()
+	cur := m.currentNames()
+	curF := m.currentFields()
+	for path, p := range m.SSA {
+		if p == nil || ref[path] == nil {
+			continue
+		}
+		shape := func(tab map[string]map[string]string, fields map[string]map[string]string, t string) map[string]string {
+			if fs, ok := fields[t+"#fields"]; ok && len(fs) > 0 {
+				return fs
+			}
+			return tab[t]
+		}
+		var gone, added []string
+		for t := range ref[path] {
+			if t == "" || strings.HasSuffix(t, "#fields") {
+				continue
+			}
+			if p.Pkg.Scope().Lookup(t) == nil {
+				gone = append(gone, t)
+			}
+		}
+		for _, mem := range p.Members {
+			if t, ok := mem.(*ssa.Type); ok {
+				_, k1 := ref[path][t.Name()]
+				_, k2 := ref[path][t.Name()+"#fields"]
+				if !k1 && !k2 && !token.IsExported(t.Name()) {
+					added = append(added, t.Name())
+				}
+			}
+		}
+		sort.Strings(gone)
+		sort.Strings(added)
+		for _, a := range added {
+			var match []string
+			for _, g := range gone {
+				if sameKeys(shape(ref[path], ref[path], g), shape(cur[path], curF[path], a)) {
+					match = append(match, g)
+				}
+			}
+			if len(match) != 1 {
+				continue
+			}
+			n := 0
+			for _, a2 := range added {
+				if sameKeys(shape(ref[path], ref[path], match[0]), shape(cur[path], curF[path], a2)) {
+					n++
+				}
+			}
+			if n != 1 {
+				continue
+			}
+			if tn, ok := p.Pkg.Scope().Lookup(a).(*types.TypeName); ok {
+				typeCanon[tn] = match[0]
+				if m.renames == nil {
+					m.renames = map[string]string{}
+				}
+				m.renames[fmt.Sprintf("%s.%s (type)", path, match[0])] = a
+			}
+		}
+	}
+}
+
+// curType translates a reference type name into the name the type has in the loaded tree.
+func (m *Module) curType(pkg, typ string) string {
+	for tn, refName := range typeCanon {
+		if refName == typ && tn.Pkg() != nil && tn.Pkg().Path() == pkg {
+			return tn.Name()
+		}
+	}
+	return typ
+}
+
+// canonFields fills fieldCanon for the loaded module.
+func (m *Module) canonFields() {
+	ref := loadNames()
+	for path, p := range m.SSA {
+		if p == nil || ref[path] == nil {
+			continue
+		}
+		for _, mem := range p.Members {
+			t, ok := mem.(*ssa.Type)
+			if !ok {
+				continue
+			}
+			st, ok := t.Type().Underlying().(*types.Struct)
+			if !ok {
+				continue
+			}
+			refT := t.Name()
+			if tn, ok := t.Object().(*types.TypeName); ok {
+				refT = tname(tn)
+			}
+			rf, ok := ref[path][refT+"#fields"]
+			if !ok {
+				continue
+			}
+			cur := map[string]bool{}
+			for i := 0; i < st.NumFields(); i++ {
+				cur[st.Field(i).Name()] = true
+			}
+			for i := 0; i < st.NumFields(); i++ {
+				f := st.Field(i)
+				if _, known := rf[f.Name()]; known || f.Exported() {
+					continue
+				}
+				ts := fieldTypeString(p.Pkg, f)
+				// reference fields of this type that are gone, and new fields of this type
+				var gone []string
+				for n, rts := range rf {
+					if !cur[n] && rts == ts {
+						gone = append(gone, n)
+					}
+				}
+				added := 0
+				for j := 0; j < st.NumFields(); j++ {
+					if _, known := rf[st.Field(j).Name()]; !known && fieldTypeString(p.Pkg, st.Field(j)) == ts {
+						added++
+					}
+				}
+				if len(gone) == 1 && added == 1 {
+					fieldCanon[f] = gone[0]
+					if m.renames == nil {
+						m.renames = map[string]string{}
+					}
+					m.renames[fmt.Sprintf("%s.%s.%s (field)", path, t.Name(), gone[0])] = f.Name()
+				}
+			}
+		}
+	}
+}
+
 // renamed resolves an anchor that is not found under its reference name.
 func (m *Module) renamed(pkg, typ, name string) *ssa.Function {
 	ref := loadNames()
@@ -98,7 +307,7 @@ func (m *Module) renamed(pkg, typ, name string) *ssa.Function {
 	}
 	cur := m.currentNames()
 	var cands []string
-	for n, sig := range cur[pkg][typ] {
+	for n, sig := range cur[pkg][m.curType(pkg, typ)] {
 		if _, known := ref[pkg][typ][n]; !known && sig == want {
 			cands = append(cands, n)
 		}
